@@ -83,6 +83,16 @@ func c11Hasher(name string) (hash.Hasher, error) {
 	return nil, fmt.Errorf("unknown hasher %q", name)
 }
 
+// fixed-output hasher (the library only requires Size() >= 32)
+type c11Fixed struct{ o []byte }
+
+func (f *c11Fixed) Algorithm() hash.HashingAlgorithm { return hash.UnknownHashingAlgorithm }
+func (f *c11Fixed) Size() int                         { return len(f.o) }
+func (f *c11Fixed) ComputeHash([]byte) hash.Hash      { return append([]byte{}, f.o...) }
+func (f *c11Fixed) Write(b []byte) (int, error)       { return len(b), nil }
+func (f *c11Fixed) SumHash() hash.Hash                { return append([]byte{}, f.o...) }
+func (f *c11Fixed) Reset()                            {}
+
 func c11ErrClass(err error) uint64 {
 	switch {
 	case err == nil:
@@ -168,6 +178,11 @@ func c11Gen(tier string, r *rand.Rand) []Case {
 		}
 		v("scalar-edge-in-range", c, "sha2_256", "setr:"+hx(big.NewInt(1).FillBytes(make([]byte, 32))), 16)
 		v("scalar-edge-in-range", c, "sha2_256", "sets:"+hx(new(big.Int).Sub(n, big.NewInt(1)).FillBytes(make([]byte, 32))), 16)
+		// valid signatures with s at the ends of its range (and mid-range), digest solved for
+		for _, sv := range []string{"1", "nm1", "2", hx(c11Scalar(r, c))} {
+			v("crafted-valid", c, "sha2_256", "craft:"+hx(c11Scalar(r, c))+":"+sv, 8)
+		}
+		v("crafted-valid", c, "sha2_256", "craft:"+hx(c11Scalar(r, c))+":nm1:"+hx(rbytes(r, 16)), 8)
 		// every other length 0..130
 		for l := 0; l <= 130; l++ {
 			if l == 64 {
@@ -399,6 +414,43 @@ func c11Run(c Case) (Result, error) {
 			ext := append(append([]byte{}, sig...), sig...)
 			ext = append(ext, sig...)
 			sig = ext[:l]
+		case strings.HasPrefix(in.Mut, "craft:"):
+			// a VALID signature with a chosen s (1, n-1, ...): pick the nonce k, take r from k*G
+			// (the public key of k), and solve the ECDSA equation for the digest e = s*k - r*d mod n,
+			// which a fixed-output hasher then returns (any hasher of >= 32 bytes is admissible)
+			parts := strings.Split(in.Mut, ":")
+			kb := unhx(parts[1])
+			ksk, err := crypto.DecodePrivateKey(alg, kb)
+			if err != nil {
+				return Result{}, err
+			}
+			rr := new(big.Int).SetBytes(ksk.PublicKey().Encode()[:32])
+			rr.Mod(rr, n)
+			var sv *big.Int
+			switch parts[2] {
+			case "1":
+				sv = big.NewInt(1)
+			case "nm1":
+				sv = new(big.Int).Sub(n, big.NewInt(1))
+			case "2":
+				sv = big.NewInt(2)
+			default:
+				sv = new(big.Int).SetBytes(unhx(parts[2]))
+			}
+			d := new(big.Int).SetBytes(unhx(in.SK))
+			e := new(big.Int).Mul(sv, new(big.Int).SetBytes(kb))
+			e.Sub(e, new(big.Int).Mul(rr, d))
+			e.Mod(e, n)
+			out := e.FillBytes(make([]byte, 32))
+			if len(parts) > 3 { // longer digest: only the leftmost 32 bytes count
+				out = append(out, unhx(parts[3])...)
+			}
+			h = &c11Fixed{out}
+			sig = append(rr.FillBytes(make([]byte, 32)), sv.FillBytes(make([]byte, 32))...)
+			expect = 1
+			if rr.Sign() == 0 {
+				expect = 0
+			}
 		case in.Mut == "othermsg":
 			vmsg = append(append([]byte{}, msg...), 0x01)
 		case in.Mut == "otherkey":
